@@ -3,6 +3,7 @@ package rules
 import (
 	"fmt"
 	"go/token"
+	"regexp"
 	"regexp/syntax"
 	"strings"
 	"unicode"
@@ -235,12 +236,17 @@ func checkC14(p *core.Program, r *core.Report) {
 	bstr := p.Method("contactql", "BoolCombination", "String")
 	if bstr != nil {
 		paren, ownOp := false, false
-		for _, cs := range core.Calls(bstr, false) {
-			if o := core.CalleeObj(cs.Common()); o != nil && core.ObjName(o) == "fmt.Sprintf" {
-				if f, ok := core.ConstString(cs.Common().Args[0]); ok && f == "(%s)" {
-					paren = true
+		// every printed alternative starts with "(" and ends with ")" (Sprintf or concatenation alike)
+		if alts := c11PrintedTemplates(p, bstr); len(alts) > 0 {
+			paren = true
+			for _, a := range alts {
+				if !strings.HasPrefix(a.format, "(") || !strings.HasSuffix(a.format, ")") {
+					paren = false
 				}
 			}
+		}
+		for _, cs := range core.Calls(bstr, false) {
+
 			if o := core.CalleeObj(cs.Common()); o != nil && core.ObjName(o) == "strings.ToUpper" {
 				if recvCanon(core.StripConv(cs.Common().Args[0]), bstr) == "recv.op" {
 					ownOp = true
@@ -254,20 +260,40 @@ func checkC14(p *core.Program, r *core.Report) {
 	}
 
 	// ------------------------------------------------------------------ R4 prefixes
+	// the writer's prefixes: alternatives of the printed condition that start with `<word>.`, and the property type
+	// test under which each is produced (read from the branch conditions the alternative came through)
 	writer := map[string]string{}
-	for _, cs := range core.Calls(cstr, false) {
-		if o := core.CalleeObj(cs.Common()); o != nil && core.ObjName(o) == "fmt.Sprintf" {
-			f, ok := core.ConstString(cs.Common().Args[0])
-			if !ok || !strings.HasSuffix(f, ".%s") {
-				continue
-			}
-			for _, ce := range core.ControllingConds(cs.Instr.Block()) {
-				bo, ok := ce.Cond.(*ssa.BinOp)
-				if !ok || bo.Op != token.EQL || !ce.Taken {
+	{
+		ev := &tEval{p: p, pkgPath: core.FuncPkgPath(cstr), parenthesizers: map[*ssa.Function]bool{}}
+		res := ev.evalFunc(cstr, []aval{&aUnknown{}}, nil)
+		if ts, ok := res[0].(*aStr); ok {
+			for _, a := range ts.alts {
+				if len(a.pieces) == 0 || a.pieces[0].hole != nil {
 					continue
 				}
-				if s, ok := core.ConstString(bo.Y); ok && recvCanon(bo.X, cstr) == "recv.propType" {
-					writer[s] = strings.TrimSuffix(f, ".%s")
+				m := regexp.MustCompile(`^(\w+)\.$`).FindStringSubmatch(a.pieces[0].lit)
+				if m == nil {
+					continue
+				}
+				for _, g := range a.guards {
+					var conds []core.CondEdge
+					if g.from != nil {
+						conds = append(conds, core.ControllingConds(g.from)...)
+						if iff, ok := g.from.Instrs[len(g.from.Instrs)-1].(*ssa.If); ok && g.from.Succs[0] != g.from.Succs[1] {
+							conds = append(conds, core.CondEdge{Cond: iff.Cond, Taken: g.from.Succs[0] == g.to, If: iff})
+						}
+					} else {
+						conds = core.ControllingConds(g.to)
+					}
+					for _, ce := range conds {
+						bo, ok := ce.Cond.(*ssa.BinOp)
+						if !ok || bo.Op != token.EQL || !ce.Taken {
+							continue
+						}
+						if sc, ok := core.ConstString(bo.Y); ok && recvCanon(bo.X, cstr) == "recv.propType" {
+							writer[sc] = m[1]
+						}
+					}
 				}
 			}
 		}
